@@ -20,9 +20,15 @@ Record case10 := mk10 {
   c_k : nat;              (* iter_count *)
   c_T : nat;              (* rayon pool size the implementation ran under *)
   c_fw : wty;             (* I64, or F64 k *)
-  c_exact : bool;         (* true: every sum the code forms is exact in its weight type (the
-                             model applies); false: arbitrary f64 fractions, given exactly at
-                             scale k -- checker only *)
+  c_mode : N;             (* 0: every sum the code forms is exact in its weight type: model compared,
+                                i64 judged by the LITERAL clause of the property (1% + one unit, or
+                                adjacent) -- for totals >= 2^46 that clause is known to fail by float
+                                rounding (known finding gridrcb-i64-total-ge-2p46-band-rounding, tag
+                                computed by the harness from the input alone);
+                             2: the untagged twin of an i64 case with total >= 2^46: same input and
+                                output, judged by the PROVED clause (band_i64) -- a failure here is not
+                                covered by the known finding;
+                             1: arbitrary f64 fractions, given exactly at scale k -- checker only *)
   c_impl : impl_res }.
 
 Definition start_axis (ds : list nat) : nat :=
@@ -40,9 +46,9 @@ Definition eval10 (c : case10) : verdict :=
     && Nat.eqb (length (c_ws c)) (glen (c_ds c))
     && forallb (fun w => 0 <=? w) (c_ws c)
     && Nat.leb 1 (c_T c) in
-  if c_exact c then
+  if negb (c_mode c =? 1)%N then
     let r := grid_rcb cfg_impl run_fuel (c_T c) (c_fw c) (c_ds c) (c_ws c) (c_k c) (glen (c_ds c)) in
-    let corr :=
+    let corr_model :=
       match r, c_impl c with
       | Ok p, IOk p' => list_eqb N.eqb p p'
       | Panic _, IPanic => true
@@ -56,26 +62,30 @@ Definition eval10 (c : case10) : verdict :=
          | I64 => sumZ (c_ws c) <? 2 ^ 63
          | F64 k => Nat.leb k 1000 && (sumZ (c_ws c) <? 2 ^ 53)
          end in
-    let prop :=
-      if in_contract then
-        match c_impl c with
-        | IOk p => check_C10 (bal_prop_b (c_fw c)) (start_axis (c_ds c)) (c_ds c) (c_ws c) (c_k c) p
-        | _ => false                 (* panic or hang inside the contract *)
-        end
-      else true in
-    (* informational class 6: an i64 total of 2^46 or more on which the output is outside the
-       LITERAL "1% + 1 unit" (it is inside 1%*(1+2^-40) + 1 unit, which is what is proved and judged) *)
-    let strict_fails :=
-      match c_fw c, c_impl c with
-      | I64, IOk p =>
-        in_contract && (2 ^ 46 <=? sumZ (c_ws c))
-        && negb (check_C10 bal_unit_b (start_axis (c_ds c)) (c_ds c) (c_ws c) (c_k c) p)
-      | _, _ => false
+    let chk balb :=
+      match c_impl c with
+      | IOk p => check_C10 balb (start_axis (c_ds c)) (c_ds c) (c_ws c) (c_k c) p
+      | _ => false                 (* panic or hang inside the contract *)
       end in
+    (* the property's literal clause: i64 = 1% + one unit or adjacent, for EVERY total *)
+    let literal := match c_fw c with I64 => chk bal_unit_b | F64 _ => chk (bal_prop_b (c_fw c)) end in
+    (* the proved clause: differs from the literal one only for i64 totals of 2^46 and more *)
+    let proved :=
+      match c_fw c with
+      | I64 => if sumZ (c_ws c) <? 2 ^ 46 then literal else chk (bal_prop_b I64)
+      | F64 _ => literal
+      end in
+    let lit := if in_contract then literal else true in
+    let prv := if in_contract then proved else true in
     let cls := match c_impl c with
-               | IOk _ => if strict_fails then 6 else 0
+               | IOk _ => if negb lit && prv then 6 else 0
                | IErr _ _ _ => 2 | IPanic => 3 | IHang => 4 end%N in
-    {| corr_ok := corr; prop_ok := prop; cls := cls |}
+    if (c_mode c =? 2)%N then
+      {| corr_ok := corr_model; prop_ok := prv; cls := cls |}
+    else
+      (* a case that fails even the proved band is also a correspondence failure
+         (model/implementation or proved-band mismatch) *)
+      {| corr_ok := corr_model && prv; prop_ok := lit; cls := cls |}
   else
     (* arbitrary f64 fractions: the sums the code forms are rounded and their association
        depends on the pool size, so no model run; the checker judges the ids against the
